@@ -82,7 +82,9 @@ func c17sSettled() bool {
 		if i := strings.Index(g, "\n"); i >= 0 {
 			hdr = g[:i]
 		}
-		if !strings.Contains(hdr, "[select") || !strings.Contains(g, "semaphore.(*Weighted).Acquire") {
+		// parked in the select of Weighted.Acquire, or (a weight larger than the semaphore's size: doomed)
+		// in its `<-ctx.Done()`
+		if !(strings.Contains(hdr, "[select") || strings.Contains(hdr, "[chan receive")) || !strings.Contains(g, "semaphore.(*Weighted).Acquire") {
 			return false
 		}
 	}
@@ -176,6 +178,18 @@ func c17sExec(raw json.RawMessage) interface{} {
 		skipped = []int{}
 		obs.Snaps = append(obs.Snaps, sn)
 	}
+	bigSeen := false
+	lastSet := int64(in.Cap0)
+	quietNow := func() bool { // every SetMaxCount so far has completed
+		for _, d := range dones {
+			select {
+			case <-d:
+			default:
+				return false
+			}
+		}
+		return true
+	}
 	for i, op := range in.Ops {
 		switch op.Op {
 		case "acq":
@@ -201,9 +215,23 @@ func c17sExec(raw json.RawMessage) interface{} {
 				skipped = append(skipped, i)
 			}
 		case "set":
-			if op.N < 0 || op.N > 1000 {
+			// Capacities near maxCapacity: with the carved-out capacity close to the semaphore's size, a grow
+			// executed while a shrink is pending or parked would make Weighted.Release panic ("released more
+			// than held"; outside the modelled range, see notes/C17.md). Such a set, and every set after it,
+			// runs only between settled snapshots, and after it only shrinks are executed.
+			prevRace := i > 0 && in.Ops[i-1].Race
+			switch {
+			case op.N < 0 || (op.N > 1000 && !c17IsBig(op.N)):
 				skipped = append(skipped, i)
-			} else {
+			case (c17IsBig(op.N) || bigSeen) && (op.Race || prevRace || !quietNow()):
+				skipped = append(skipped, i)
+			case bigSeen && op.N > lastSet:
+				skipped = append(skipped, i)
+			default:
+				if c17IsBig(op.N) {
+					bigSeen = true
+				}
+				lastSet = op.N
 				dones = append(dones, s.SetMaxCount(op.N))
 			}
 		default:
@@ -220,7 +248,7 @@ func c17sExec(raw json.RawMessage) interface{} {
 	// context.Background() in the code under test)
 	cancel()
 	// un-park the leaked adjustment goroutines so that they do not pile up over the run
-	for i := 0; i < 64; i++ {
+	for i := 0; i < 64 && !bigSeen; i++ {
 		c17sWaitSettled()
 		_, ws := c17sPeek(s)
 		if len(ws) == 0 {
@@ -233,7 +261,49 @@ func c17sExec(raw json.RawMessage) interface{} {
 	return obs
 }
 
+
+// capacities at and beyond maxCapacity (20 000 000): the clamp of SetMaxCount
+var c17BigCaps = []int64{19999999, 20000000, 20000001, 25000000, 4294967295}
+
+func c17IsBig(n int64) bool {
+	for _, b := range c17BigCaps {
+		if n == b {
+			return true
+		}
+	}
+	return false
+}
+
+// c17sGenBig: grow to a capacity at / beyond maxCapacity, then shrink below usage, then releases and
+// acquisitions (no further set: see c17sExec)
+func c17sGenBig(r *verifh.Rand) interface{} {
+	in := c17sInput{Cap0: uint32(r.PickInt(1, 2, 3))}
+	acq := 0
+	for k := r.Range(0, 3); k > 0; k-- {
+		in.Ops = append(in.Ops, c17sOp{Op: "acq"})
+		acq++
+	}
+	in.Ops = append(in.Ops, c17sOp{Op: "set", N: c17BigCaps[r.Intn(len(c17BigCaps))]})
+	for k := r.Range(1, 5); k > 0; k-- {
+		in.Ops = append(in.Ops, c17sOp{Op: "acq"})
+		acq++
+	}
+	in.Ops = append(in.Ops, c17sOp{Op: "set", N: int64(r.Range(0, 3))})
+	for k := r.Range(2, 10); k > 0; k-- {
+		if r.Intn(2) == 0 {
+			in.Ops = append(in.Ops, c17sOp{Op: "acq"})
+			acq++
+		} else {
+			in.Ops = append(in.Ops, c17sOp{Op: "rel", K: r.Intn(acq)})
+		}
+	}
+	return in
+}
+
 func c17sGen(r *verifh.Rand, i int) interface{} {
+	if r.Intn(15) == 0 {
+		return c17sGenBig(r)
+	}
 	in := c17sInput{Cap0: uint32(r.PickInt(0, 1, 1, 2, 2, 3, 4, 5))}
 	n := r.Range(4, 30)
 	acq := 0
